@@ -156,7 +156,8 @@ def main(have):
                                   ("iscsi://Host.Example:3260/iqn.2001-04.COM.Example:Target-A/1", "iscsi", "ISCSIDevice"), ("/dev/disk/by-label/Data Disk", "sgio", "SCSIDevice"),
                                   ("iscsi://admin%password@10.0.0.5/iqn.2001-04.com.example:t/1", "iscsi", "ISCSIDevice"), ("iscsi://backup%s3cret@h/t/0", "iscsi", "ISCSIDevice"),
                                   ("/dev/disk/by-id/usb-Flash%20Disk_1%d-0:0", "sgio", "SCSIDevice"), ("100%", None, None), ("%s", None, None), ("tcp://%(x)s", None, None),
-                                  ("/tmp/file", None, None), ("tcp://x", None, None), ("", None, None), ("/dev", None, None), ("dev/sg0", None, None),
+                                  ("/tmp/file", None, None), ("tcp://x", None, None), ("nbd://[fd00::10", None, None), ("//[", None, None), ("smb://[fileserver]/share", None, None),
+                                  ("iscsi://backup%s3cr]t@192.0.2.10:3260/iqn.2003-01.org.example:disk1/0", "iscsi", "ISCSIDevice"), ("iscsi://[::1]:3260/iqn.t/0", "iscsi", "ISCSIDevice"), ("", None, None), ("/dev", None, None), ("dev/sg0", None, None),
                                   ("ISCSI://x", None, None), (" /dev/sg0", None, None)):
         del w.trace[:]
         try:
